@@ -4,7 +4,7 @@ import sweeps, genhist
 from sweeps import ALL, WS, program_units, diff_sweep, halts_extra
 from diffrun import Cfg
 
-PROPS_VO = ['Props/C02.vo']
+PROPS_VO = ['Props/C02.vo', 'Props/Patterns_props.vo']
 GEN_ITEMS = ['coq/Gen/GenTables.v', 'coq/Gen/GenStdlib.v']
 LEVEL = 'proof'
 TRUSTED = ['PARTIAL: proved = machine-level idiom theorems for undo / preempt / stop / speculation / defeat calls over arbitrary bodies (coq/Sphinx/TimeTravel.v) '
@@ -25,7 +25,10 @@ def nonterm_extra(ctx):
     """VM out of fuel although the reference finishes quickly without replays: the compiled
     program re-executes something the source does not (e.g. a stale handler)."""
     def extra(src, res):
-        if res.run.status == 'ran' and res.run.kind == 'FUEL' and res.ref and res.ref[0] in ('win', 'error'):
+        ex = res.extra or {}
+        # only when the source needs (almost) no speculation: otherwise the VM's search may simply be long
+        if res.run.status == 'ran' and res.run.kind == 'FUEL' and res.ref and res.ref[0] in ('win', 'error') \
+                and ex.get('replays', 99) <= 6 and ex.get('ref_steps', 10 ** 9) <= 3000:
             ctx.violate('compiled program does not reach its end state within the fuel although the source terminates at once',
                         cls='nontermination', **sweeps.describe(src, res))
     return extra
@@ -41,6 +44,10 @@ def run(ctx):
     def both(src, res):
         h(src, res)
         n(src, res)
+    from component import run_corr
+    run_corr(ctx, 'corr_patterns', 'every emitted j classifies as a proved idiom (Patterns.classify)')
+    diff_sweep(ctx, 'directed time-travel corpus', genhist.directed_units(ws), extra=both)
+    diff_sweep(ctx, 'directed time-travel corpus, --unchecked', genhist.directed_units(ws[:2], unchecked=True), extra=h)
     diff_sweep(ctx, 'histories of try blocks', history_units(rng, 220 if q else 2500, ws, ctx.seed + 200), extra=both)
     units = program_units(rng, 120 if q else 1500, ALL + ['tt'], ws, cfgs_per=3, seed_base=ctx.seed + 201)
     diff_sweep(ctx, 'random programs with time travel', units, extra=h)
